@@ -19,8 +19,10 @@ Families ==
   ELSE (PolyFamilies \ {Fam("W3", 3, 1, 0)})
        \cup {Fam("TAB", m, p, s) : m \in 1..3, p \in 1..2, s \in 0..1}
        \cup {Fam("TABZ", m, 2, 0) : m \in 2..3}
+       \* more parameters than basis functions (P >= M + 2): thin lattices, see AlphaValsFor
+       \cup {Fam("TAB", 1, 3, 0), Fam("TAB", 2, 4, 0)}
        \cup (IF Tier = "thorough"
-             THEN {Fam("TAB", m, 3, 0) : m \in 1..2} \cup {Fam("W3", 3, 1, 0)}
+             THEN {Fam("TAB", m, 3, 1) : m \in 1..3} \cup {Fam("W3", 3, 1, 0)} \cup {Fam("TAB", 1, 4, 1)}
                   \cup {Fam("TAB", m, p, s) : m \in 1..3, p \in 1..2, s \in 2..3}
              ELSE {})
 
